@@ -87,6 +87,9 @@ TRecv ==
          est == known /\ sess[E.sess].phase = "est"
          d == (IF known /\ E.est # est THEN {"est_flag"} ELSE {})
               \cup (IF known /\ sess[E.sess].owed # "" THEN {"read_on_after_" \o sess[E.sess].owed} ELSE {})
+              \* Admit.tla ConnIffOpenSession: while a session is established its peer is a listed connection; only
+              \* the session itself takes the entry away, and then it ends without reading on
+              \cup (IF est /\ ~Has(ns.conn, peer) THEN {"established_session_without_connection"} ELSE {})
          lists == est /\ E.hasu /\ E.u.fwd = peer /\ E.u.node = peer /\ Has(E.u.conns, ns.id)
          owes == IF est /\ E.hasu /\ Has(ns.conn, peer) /\ Has(ns.rest, peer) THEN RecvRoute(ns, E.u, peer).reject ELSE ""
      IN /\ pend' = IF E.hasu THEN Put(pend, E.sess, E.u) ELSE Del(pend, E.sess)
@@ -290,6 +293,9 @@ THStatus ==
               \cup (IF \E dst \in DOMAIN E.table : E.table[dst] \notin DOMAIN ns.conn THEN {"route_via_non_neighbour"} ELSE {})
               \cup (IF E.known # ns.known THEN {"status_known"} ELSE {})
               \cup (IF Has(ns.known, ns.id) /\ ns.known[ns.id] # ns.conn THEN {"own_row_differs_from_connections"} ELSE {})
+              \cup (IF \E s \in DOMAIN sess : sess[s].phase = "est" /\ ~Has(ns.conn, sess[s].peer) THEN {"established_session_not_listed"} ELSE {})
+              \cup (IF \E p \in DOMAIN ns.conn : ~\E s \in DOMAIN sess : sess[s].peer = p /\ sess[s].phase # "closed"
+                    THEN {"connection_without_open_session"} ELSE {})
               \cup (IF ~ValidTable(ns.known, ns.id, E.table, E.costs) THEN {"table"} ELSE {})
      IN Keep /\ Advance(d)
 
